@@ -36,6 +36,7 @@ package fsnotify
 //@ confined reader: inotify.cookies, inotify.cookieIndex
 
 //@ func (w *inotify) newEvent(name string, mask uint32, cookie uint32) (e Event)
+//@   opt replay
 //@   requires token(reader) && !held(inotify.cookiesMu)
 //@   requires RingInv(w)
 //@   effect   dupCookie = old(dupCookie) || (cookie != 0 && mask & unix.IN_MOVED_FROM != 0 && has(old(seenFrom), cookie))
@@ -297,6 +298,7 @@ package fsnotify
 //@ def recWd(b []byte, o uint32) := le32(b, uint64(o))
 
 //@ func (w *inotify) xSupports(op Op) (r bool)
+//@   opt replay
 //@   ensures r                                                                  [C15] "inotify supports every operation"
 
 //@ lemma forall(o, Op, forall(nf, bool, specOpInotify(requestInotify(o, nf)) & (o & 0x1ff) == o & 0x1ff))     [C15] "none of the requested operations is left unobservable by the flags subscribed for it"
